@@ -140,6 +140,33 @@ def run(ctx):
                 if k >= N:
                     ctx.check(abs(float(ymin) - g['minv']) < 1e-9 and abs(float(ymax) - g['maxv']) < 1e-9, 'optima_qtt:exact',
                               'optima_qtt(k=%d): (min, max) = (%s, %s), true (%s, %s)' % (k, ymin, ymax, g['minv'], g['maxv']), case=case)
+    # --- rank-1 float tensors, small k: the maximum-modulus side must be exact; the other extreme is a known finding
+    R1_EXAMPLE = [[1.3889799748383085, 0.35145507618731386, -0.47433298683443925, -1.9442649759855442],
+                  [-1.3077531969011476, 1.0868307847683634, -0.050604063111342405],
+                  [-0.2831250656795347, 1.643251614242697, -1.2826492440738984],
+                  [-0.5856577998413593, -0.47258767675848407, 0.5863372815313004, -0.663535198304047],
+                  [-0.6134178486140281, -1.6051493968851136, 0.7293494040178566]]
+    probes = [([np.array(v).reshape(1, -1, 1) for v in R1_EXAMPLE], 1)]
+    for t in range(150 if quick else 1500):
+        d_ = int(rng.integers(3, 6))
+        probes.append(([rng.normal(size=(1, int(q_), 1)) for q_ in rng.integers(2, 5, size=d_)], int(rng.integers(1, 3))))
+    for Yr, k_ in probes:
+        Fr = F.dense(Yr)
+        ctx.case(key=('rank1-float', [G.shape[1] for G in Yr], k_, float(Fr.flat[0])), nontrivial=True)
+        i1, y1 = teneva.optima_tt_max(Yr, k_)
+        ctx.check(abs(abs(y1) - np.abs(Fr).max()) <= 1e-12 * np.abs(Fr).max(), 'optima_tt_max:exact', 'rank-1 tensor, k=%d: optima_tt_max misses the maximum modulus' % k_)
+        imin, ymin, imax, ymax = teneva.optima_tt(Yr, k_)
+        c1 = consistent(ctx, 'optima_tt', Fr, imin, ymin, None, 'optima_tt rank-1 min')
+        c2 = consistent(ctx, 'optima_tt', Fr, imax, ymax, None, 'optima_tt rank-1 max')
+        if c1 and c2:
+            ctx.check(float(ymin) <= float(ymax), 'optima_tt:order', 'optima_tt rank-1: min > max')
+            tol = 1e-12 * np.abs(Fr).max()
+            big_is_max = abs(Fr.max()) >= abs(Fr.min())
+            first_ok = abs((ymax if big_is_max else ymin) - (Fr.max() if big_is_max else Fr.min())) <= tol
+            second_ok = abs((ymin if big_is_max else ymax) - (Fr.min() if big_is_max else Fr.max())) <= tol
+            ctx.check(first_ok, 'optima_tt:exact', 'rank-1 tensor, k=%d: the maximum-modulus extreme is wrong' % k_)
+            ctx.check(second_ok, 'optima_tt:rank1-second-extreme', 'rank-1 tensor of shape %s, k=%d: (min, max) = (%r, %r), true (%r, %r)'
+                      % ([G.shape[1] for G in Yr], k_, ymin, ymax, Fr.min(), Fr.max()))
     # --- constant tensor represented with TT-rank 2 (rank-deficient unfoldings): every routine must cope
     Cst = teneva.add(teneva.const([3, 3, 3], 1.), teneva.const([3, 3, 3], 2.))
     Fc = F.dense(Cst)
